@@ -110,6 +110,13 @@ def _check_metrics(bad, M, b, expected):
                         got = float(call(y + SHIFT, h + SHIFT))
                         assert numeric.close(got, exp, rel=1e-6, ab=1e-9), dict(info, got=got, shifted_by=SHIFT)
                     bad.guard(_clause("equals-definition", fn), eqs)
+                if fn in ("r2", "r2adj") and ty == "float64" and th == "float64" and len(set(float(v) for v in y)) > 1:
+                    # (a constant y takes the library's convention 1 - rss, which is not scale invariant: left out)
+                    # scale invariance: the same vectors in tiny units (2^-20, exact): sums of squares of order 1e-12 are not "zero"
+                    def eqsc(call=call, y=y, h=h, info=info):
+                        got = float(call(y * 2.0 ** -20, h * 2.0 ** -20))
+                        assert numeric.close(got, exp, rel=1e-9, ab=1e-12), dict(info, got=got, scaled_by="2^-20")
+                    bad.guard(_clause("equals-definition", fn), eqsc)
 
                 def rng(call=call, y=y, h=h, info=info, fn=fn):
                     got = float(call(y.copy(), h.copy()))
@@ -161,6 +168,10 @@ def _check_line(bad, M, lf, b, expected):
                         if fn in SHIFT_INV and ty == "float64" and tc == "float":
                             got = float(f(x.copy(), y + SHIFT, (coef[0] + SHIFT, coef[1])))
                             assert numeric.close(got, exp, rel=1e-6, ab=1e-9), dict(info, fn="linear_fit." + label, got=got, expected=exp, shifted_by=SHIFT)
+                        if fn in ("r2", "r2adj") and ty == "float64" and tc == "float" and len(set(float(v) for v in y)) > 1:
+                            sc = 2.0 ** -20
+                            got = float(f(x.copy(), y * sc, (coef[0] * sc, coef[1] * sc)))
+                            assert numeric.close(got, exp, rel=1e-9, ab=1e-12), dict(info, fn="linear_fit." + label, got=got, expected=exp, scaled_by="2^-20")
                     bad.guard(_clause("wrapper-equals-metric", fn), wr)
 
 
